@@ -1191,6 +1191,13 @@ func cmdLife(args []string) {
 	case "twins":
 		for ncases < *n {
 			s := randSem(rng)
+			switch ncases {
+			case 0: // anonymous allow-all with every list wildcarded (and Authorization next to each `*`)
+				s = fixedSems(rng)[1]
+			case 1: // discrete origins, `*` (+ Authorization) in both header lists, no credentials, no Private-Network Access
+				s = Sem{Status: 204, Pna: "none", Pats: []cPattern{{Scheme: "https", Host: "example.com"}, {Scheme: "https", Wild: true, Host: "example.com", Port: anyPort}},
+					Meths: []string{"PUT"}, HStar: true, HAuth: true, Expose: []string{"*"}, MaxAge: 30}
+			}
 			if ncases%3 == 1 && len(s.HNames) > 0 && !s.HStar && !(len(s.Expose) == 1 && s.Expose[0] == "*") {
 				// a name listed in BOTH header lists (they are independent sets)
 				for _, n := range s.HNames {
